@@ -24,6 +24,9 @@ CHECKS = {
  "C06": ("exploration", "reference delivery model compared with the PUBLISH multisets received by scripted peers behind FIFO marker fences (sequential), event-log-order oracle for concurrent runs",
          "120 (quick) / 2500 (thorough) sequential histories of 20-40 operations over 1-6 clients checked after every operation, 40 / 1000 concurrent runs of 2-6 clients with backend-boundary perturbation",
          "peers acknowledge everything and keep reading; offline/resume behaviour belongs to C08; in concurrent runs a delivery may carry the uncapped publish QoS when the client's own unsubscribe fell between publish and delivery (recorded, not asserted)", "2-C06"),
+ "C20": ("exploration", "wire byte recorder (zero bytes before CONNECT), per-connection backend hook trace, response multiset matching behind a SUBSCRIBE fence through the ack queue",
+         "exhaustive over all packet-kind sequences of length 1-3 x 4 credential situations written in one burst, hostile first frames, 1.5k (quick) / 30k (thorough) random pipelines of up to 40 packets with repeating ids",
+         "responses to requests preceding a connection-closing packet in the same burst may be lost with the connection; only unsolicited packets are judged there", "2-C20"),
 }
 NOT_APPLICABLE = {}
 def main():
